@@ -141,6 +141,9 @@ func CheckHistory(c *sim.Ctx, host string, evs []sim.Ev, complete bool) {
 			pending[e.Task+"/op"] = &open{tmIn{kind: "cancel"}, e.Seq}
 		case "rem.ret":
 			o := pending[e.Task+"/op"]
+			if o == nil {
+				continue // (a planned stop that was never issued)
+			}
 			delete(pending, e.Task+"/op")
 			res := "ok"
 			switch {
